@@ -27,7 +27,8 @@ def stub_properties(sk):
                 yield cls, fn
 
 
-def check_stubs(report, lib: Lib, tname: str, label: str):
+def check_stubs(report, lib: Lib, tname: str, label: str, channel: str = "self._logged_channel"):
+    """`channel`: the attribute the transport makes its stubs on (the default set wraps it for logging; the ads set uses the raw channel)"""
     r = report.rule("C03.1", "per-method stub property: one channel call of the declared arity on the RPC's full path with the "
                              "input serializer and output deserializer; cached and returned under one key", floor=8)
     found = {}
@@ -41,14 +42,14 @@ def check_stubs(report, lib: Lib, tname: str, label: str):
             r.instance({"template": label, "stub": D(sk, fn)[:80]})
             r.check(not extra, *where(sk, fn, root), f"stub property {KEY} guarded by {extra}",
                     f"the stub property is emitted only under {extra}: some RPCs would have no stub")
-            chan = [c for c in calls(fn) if D(sk, c.func).startswith("self._logged_channel.")]
+            chan = [c for c in calls(fn) if D(sk, c.func).startswith(channel + ".")]
             r.check(len(chan) == 1, *where(sk, fn, root), f"{len(chan)} channel calls in stub {KEY}", "exactly one channel call per stub property")
             if len(chan) != 1:
                 continue
             c = chan[0]
             w = where(sk, c, root)
-            r.check(D(sk, c.func) == "self._logged_channel.{" + M + ".grpc_stub_type}", *w, D(sk, c.func),
-                    "stub factory must be self._logged_channel.<Method.grpc_stub_type>")
+            r.check(D(sk, c.func) == channel + ".{" + M + ".grpc_stub_type}", *w, D(sk, c.func),
+                    f"stub factory must be {channel}.<Method.grpc_stub_type>")
             r.check(len(c.args) == 1 and D(sk, c.args[0]) == PATH, *w, D(sk, c.args[0]) if c.args else "<no path>",
                     f"method path must be {PATH} (raw rpc name, service name, proto package)")
             k = kw(sk, c)
@@ -294,4 +295,4 @@ def run(report: core.Report):
     check_call_path(report, lib)
     if report.tier == "thorough":
         ads = Lib(core.ADS_TEMPLATES)
-        check_stubs(report, ads, "%namespace/%name/%version/%sub/services/%service/transports/grpc.py.j2", "ads grpc")
+        check_stubs(report, ads, "%namespace/%name/%version/%sub/services/%service/transports/grpc.py.j2", "ads grpc", channel="self.grpc_channel")
